@@ -36,7 +36,9 @@ class BoolOperation(object):
         cancel_futures = set()
 
         with self.lock:
-            if self.done:
+            if self.done or f not in self.fs:
+                # already decided, or a repeated input whose first
+                # callback has been handled already
                 return
 
             del self.fs[f]
